@@ -115,6 +115,7 @@ static uint32_t current_mask(KFd &k) {
 	uint32_t m = 0;
 	if (kernel_fd_ready_in(k)) m |= EPOLLIN;
 	if (kernel_fd_ready_out(k)) m |= EPOLLOUT;
+	if (k.spurious_in) m |= EPOLLIN;
 	m &= k.ep_events;
 	if (k.kind == FD_STREAM && W && k.client >= 0) {
 		Client &c = W->clients[k.client];
@@ -156,7 +157,7 @@ int World::compose_batch(void *events_v, int maxevents) {
 		if (n >= maxevents) break;
 		uint32_t m = current_mask(*k);
 		events[n].events = m; events[n].data.u64 = k->ep_data;
-		k->ep_pending = false;
+		k->ep_pending = false; k->spurious_in = false;
 		batch.push_back({k->fd, m, false});
 		sig.u64(k->kind); sig.u64(m);
 		trace.tag("ev"); trace.u64(k->fd); trace.u64(m);
